@@ -176,7 +176,9 @@ class C05(Prop):
                 'Continuum.revertN_keeps_visited', 'Continuum.c05_every_level', 'Continuum.revertNL_erase',
                 'Continuum.revertNL_log_nodup', 'Continuum.revertNL_target_logged', 'Continuum.c05_target_full',
                 'Continuum.c05_delete_target_full', 'Continuum.revertF_visited_rows', 'Continuum.revertF_visited_mono',
-                'Continuum.revertF_no_paths', 'Continuum.revertF_links_frame', 'Continuum.history_all']
+                'Continuum.revertF_no_paths', 'Continuum.revertF_links_frame', 'Continuum.revertF_o2m_first_level_pk',
+                'Continuum.revertF_m2m_first_level_pk', 'Continuum.revertF_m2o_first_level',
+                'Continuum.revertF_second_level_links_corrected', 'Continuum.history_all']
     workers = 14
     chunk = 1
     rule = ('random histories on the Article 1-n Tag shape (optionally with an excluded column) and the many-to-many shape, both '
@@ -371,7 +373,14 @@ class C05(Prop):
             target, relbits, frame, modelbits = ans.split(' ')
             det = {'target': res['target'], 'rels': res['rels'], 'before': res['before']['live'], 'after': res['after']['live'],
                    'links_after': res['after']['links']}
-            if full is not None and op != 2 and full[0] != '1 1':
+            if full is not None and op != 2 and full[0].split(' ')[2] != '1':
+                # oracle (Lean predicate on the implementation's links): every second-level entity the target shows has
+                # the many-to-many links ITS version shows
+                out.violations.append({'clause': 'C05.SecondLevelLinksHold:' + res['dotted'],
+                                       'detail': {'target': res['target'], 'links_after': visible_links(res['after']),
+                                                  'links_before': visible_links(res['before']), 'versions': res['versions'],
+                                                  'assoc': res['assoc']}})
+            if full is not None and op != 2 and full[0].split(' ')[:2] != ['1', '1']:
                 # correspondence: the recursion model revertF (rows, links at every level) vs the implementation
                 out.mismatches.append({'stream': 'revertF (whole recursion) vs implementation for %s %s (rows equal, links equal) = %s'
                                                  % (res['target'], res['dotted'], full[0]),
